@@ -179,7 +179,7 @@ def _material(kind):
     return _KEYS[kind]
 
 
-def _pkcs7(kind, halg, with_attrs, sf, tamper=None):
+def _pkcs7(kind, halg, with_attrs, sf, tamper=None, embed=False):
     from asn1crypto import cms, core, x509 as ax509, algos
     from cryptography.hazmat.primitives import hashes
     from cryptography.hazmat.primitives.asymmetric import ec, padding
@@ -214,7 +214,8 @@ def _pkcs7(kind, halg, with_attrs, sf, tamper=None):
     if attrs is not None:
         si["signed_attrs"] = attrs
     sd = cms.SignedData({"version": "v1", "digest_algorithms": [{"algorithm": halg}],
-                         "encap_content_info": {"content_type": "data"}, "certificates": [cert], "signer_infos": [cms.SignerInfo(si)]})
+                         "encap_content_info": {"content_type": "data", "content": sf} if embed else {"content_type": "data"},
+                         "certificates": [cert], "signer_infos": [cms.SignerInfo(si)]})
     return cms.ContentInfo({"content_type": "signed_data", "content": sd}).dump(), cert_der
 
 
@@ -227,19 +228,24 @@ def _enum(tier, **_):
                     yield {"kind": kind, "halg": halg, "attrs": wa, "tamper": t, "pos": 0}
                 for pos in range(0, 40, 1 if tier != "quick" else 3):
                     yield {"kind": kind, "halg": halg, "attrs": wa, "tamper": "sf", "pos": pos}
+                # non-detached block (the signed content is also embedded, RFC 5652 eContent): the certificate still has to
+                # verify the APK's signature file, not the embedded copy
+                yield {"kind": kind, "halg": halg, "attrs": wa, "tamper": None, "pos": 0, "embed": True}
+                for pos in (0, 17, 39):
+                    yield {"kind": kind, "halg": halg, "attrs": wa, "tamper": "sf", "pos": pos, "embed": True}
 
 
 @unit("C32", covers=[(APKF, "APK.get_certificate_der"), (APKF, "APK.verify_signer_info_against_sig_file"), (APKF, "APK.verify_signature"),
                      (APKF, "APK.find_certificate")], level="bounded",
       note="generated PKCS#7 blocks: RSA-1024 and EC P-256 keys x SHA-1/SHA-256 x with/without signed attributes; untouched, and "
            "with the .SF changed at each (every 3rd in quick) of its 40 bytes, the signature value, the messageDigest attribute or "
-           "the sid serial number altered")
+           "the sid serial number altered; detached blocks and blocks that embed the signed content")
 def signed_apks(U):
     m = U.mod(APKF)
     g = U.given or {"kind": "rsa", "halg": "sha256", "attrs": True, "tamper": None, "pos": 0}
     U.drawn.update(g)
     sf = b"Signature-Version: 1.0\r\nCreated-By: verif\r\n"[:40]
-    p7, cert_der = _pkcs7(g["kind"], g["halg"], g["attrs"], sf, g["tamper"])
+    p7, cert_der = _pkcs7(g["kind"], g["halg"], g["attrs"], sf, g["tamper"], g.get("embed", False))
     sf_in_apk = sf
     if g["tamper"] == "sf":
         b = bytearray(sf)
